@@ -7,6 +7,7 @@ import Driver.TwoPass
 import Driver.Sim
 import Driver.Mem
 import Driver.FileIO
+import Driver.Safe
 
 def dispatch (line : String) : String :=
   match (line.trimAscii.toString.splitOn " ").filter (· ≠ "") with
@@ -34,6 +35,7 @@ def dispatch (line : String) : String :=
   | "wr" :: args => Driver.FileIO.handleWr args
   | "s0" :: args => Driver.FileIO.handleS0 args
   | "rd" :: args => Driver.FileIO.handleRd args
+  | "srd" :: args => Driver.Safe.handleSrd args
   | _ => "bad-op"
 
 partial def loop (h : IO.FS.Stream) (out : IO.FS.Stream) : IO Unit := do
